@@ -312,6 +312,9 @@ func allChecks() []CheckSpec {
 						c.MaxPaths = 2000000
 						c.MaxWallS = 900
 					}},
+				{Fn: "verifC13TCPSiblingWrite", Lemma: "TCP mux: two handles of one ufrag share a tcpPacketConn with an attached TCP connection; one user leaves — plainly, or the way candidateBase.abortIO does (SetDeadline(now), then Close) — and the sibling's writes to the peer still go out",
+					Bounds: "one attached peer, symbolic payload, leave by Close or by SetDeadline(now)+Close; the fake connection fails writes once a write deadline at or before now is set", MustReach: []string{"abort-then-close", "done"},
+					Cfg: func(c *HarnessCfg, tier int) { c.GoPolicy = "queue" }},
 				{Fn: "verifC13AbortProtocol", Lemma: "write-abort protocol at method granularity on the real startWriteContext/finishWrite/abortWrite: abort without a writer in flight touches neither the state word nor the socket; the last finishing writer clears an armed deadline and the word returns to 0; a failed arming clears the flags; the in-flight count is exact and never underflows; a write starting while an abort is pending does not enter; after all writers returned later writes enter and the last deadline set is 'none'",
 					Bounds: "4 (quick) / 6 (thorough) calls from {start write, finish write, abort}, SetWriteDeadline succeeding or failing", MustReach: []string{"start-while-blocked", "last-writer-after-abort", "abort-noop", "arming-failed", "armed", "done"},
 					Cfg: func(c *HarnessCfg, tier int) { c.GoPolicy = "queue" }},
